@@ -4,17 +4,24 @@ C12 — sender side of acknowledged requests, client role.
 Property theorems only (helper lemmas: `Proofs/Client*.lean`).  Model:
 `Model/Client.lean` (code-shaped, tied to `service.Client` by the scripted-peer
 correspondence runs); specification: `Spec/Client.lean`.  The recorded
-deviations of the code (E5 ack-before-registration; identifiers assigned from a
-16-bit cycle without regard to what is in flight) are kept out of the
-`…_partial` statements by explicit hypotheses and proved as closed
-`…_counterexample`s on the model.  (The single ping slot of
-`sessions.Ackqueue`, E9 - one callback invocation per matching filter of a
-request - and A2 - identifier 0 at the wrap of the counter - were three more;
-they were repaired and the theorems that carried their hypotheses are stated at
-full strength.)
+deviation of the code (identifiers assigned from a 16-bit cycle without regard
+to what is in flight) is kept out of the `…_partial` statements by explicit
+hypotheses and proved as closed `…_counterexample`s on the model.  (E5 - an
+acknowledgement processed between the write of a request and its registration
+was dropped -, the single ping slot of `sessions.Ackqueue`, E9 - one callback
+invocation per matching filter of a request - and A2 - identifier 0 at the wrap
+of the counter - were four more; they were repaired and the theorems that
+carried their hypotheses are stated at full strength.)
+
+The event `.apiEarlyAck call ack` - the acknowledgement reaches the client after
+the request was written and before the call has registered it - is part of
+every history quantified over below.  Since the repair of E5 (`service.ackmu`)
+the acknowledgement waits for the registration; section (f) ties that to the
+lock structure of the source.
 -/
 import Mqtt.Proofs.ClientRefine
 import Mqtt.Proofs.ClientIds
+import Mqtt.Proofs.AckLock
 
 set_option linter.unusedSimpArgs false
 
@@ -97,8 +104,10 @@ theorem C12_queue_conservation (k : Kind) (c : C) (evs : List Ev) :
   run_conservation k c evs
 
 /-- **C12, exactly-once FIFO completion.**  For every state of a connected
-client and every history of API calls and packets from the peer without the
-ack-before-registration interleaving, in which every acknowledged request is
+client and every history of API calls and packets from the peer - an
+acknowledgement that arrives before the sending call has finished registering
+the request included (`.apiEarlyAck`: its call counts among the calls made, its
+completions among those fired) -, in which every acknowledged request is
 written with an identifier - supplied by the caller or assigned by the library -
 that is not in flight in its queue (`FreshA`; implied by `Fresh`, which admits
 caller-supplied identifiers only, and by `Clear`): the completion tags fired
@@ -108,10 +117,10 @@ kind `k` the caller made, in call order (tag 0 = no callback).  Hence every
 completion callback fires at most once, in the order of the calls, and none
 fires that was not requested. -/
 theorem C12_exactly_once_fifo (k : Kind) (c : C) (evs : List Ev) (hc : c.connected = true)
-    (he : noEarly evs = true) (hf : FreshA c evs = true) :
+    (hf : FreshA c evs = true) :
     fired k c evs ++ nz ((queue k (runState c evs)).map (·.tag)) =
       nz ((queue k c).map (·.tag)) ++ nz (requestedTags k evs) := by
-  rw [run_conservation_tags k c evs he, accepted_freshA k c evs hc he hf]
+  rw [run_conservation_tags k c evs, accepted_freshA k c evs hc hf]
 
 /-- the hypothesis of `C12_exactly_once_fifo` is weaker than "every identifier is supplied by the
 caller, non-zero and not in flight in its queue" -/
@@ -189,7 +198,7 @@ def demoC : List Ev :=
 
 example :
     (step init (.connect (.connack false 0))).1.connected = true ∧
-    noEarly demoC.tail = true ∧ Fresh (step init (.connect (.connack false 0))).1 demoC.tail = true ∧
+Fresh (step init (.connect (.connack false 0))).1 demoC.tail = true ∧
     FreshA (step init (.connect (.connack false 0))).1 demoC.tail = true ∧
     runOuts init demoC =
       [[.connected],
@@ -212,17 +221,17 @@ example :
 /-! ### pings (no identifier: any number may be outstanding) -/
 
 /-- **Pings, exactly-once FIFO completion.**  For every state of a connected
-client - whatever number of pings is outstanding - and every history without
-the ack-before-registration interleaving, in which `Ping` may be called any
-number of times before any PINGRESP arrives: the ping completions fired,
+client - whatever number of pings is outstanding - and every history (a
+PINGRESP that arrives before `Ping` has registered its request included), in
+which `Ping` may be called any number of times before any PINGRESP arrives: the
+ping completions fired,
 followed by the tags of the pings still in flight, are the tags initially in
 flight followed by the tags of the `Ping` calls, in call order.  Hence every
 ping completion fires at most once, in the order of the calls, none is lost to
 a later `Ping`, and none fires that was not requested. -/
-theorem C12_ping_exactly_once_fifo (c : C) (evs : List Ev) (hc : c.connected = true)
-    (he : noEarly evs = true) :
+theorem C12_ping_exactly_once_fifo (c : C) (evs : List Ev) (hc : c.connected = true) :
     pingFired c evs ++ nz (pingTags (runState c evs)) = nz (pingTags c) ++ nz (pingRequested evs) :=
-  run_ping_conservation c evs hc he
+  run_ping_conservation c evs hc
 
 /-- **When a ping completion fires.**  Between two events no ping in flight
 carries a PINGRESP (`PingsWaiting`: the client collects right after it
@@ -279,40 +288,87 @@ example :
 
 /-! ### the two interleavings of acknowledgement and return of the call -/
 
-/-- "This holds however the arrival of the acknowledgement interleaves with the
+/-- **The composite event is the call followed by the packet**, in every state,
+connected or not, for every call and every packet: an acknowledgement (or any
+other packet) that reaches the client between the write of a request and its
+registration is processed after the registration - state and outputs are those
+of `.api call` followed by `.peer ack`.  (Before the repair of E5 the packet was
+processed first: a terminal acknowledgement found no entry and was dropped.) -/
+theorem C12_early_ack_is_call_then_ack (c : C) (call : Api) (ack : Packet) :
+    step c (.apiEarlyAck call ack) =
+      ((step (step c (.api call)).1 (.peer ack)).1,
+       (step c (.api call)).2 ++ (step (step c (.api call)).1 (.peer ack)).2) :=
+  step_early c call ack
+
+/-- **C12, completion however the acknowledgement interleaves with the call.**
+"This holds however the arrival of the acknowledgement interleaves with the
 return of the sending call": a request with a caller-supplied identifier and a
 completion callback, made while its queue is empty, completes when its terminal
 acknowledgement has been processed - whether the acknowledgement is processed
-after the call returned (`.api` then `.peer`) or between the write and the
-registration (`.apiEarlyAck`). -/
-def C12_completes_on_ack_full : Prop :=
-  ∀ (c : C) (call : Api) (k : Kind) (id tag : Nat) (ack : Packet),
-    c.connected = true → callReq call = some (k, id, tag) → id ≠ 0 → tag ≠ 0 → queue k c = [] →
-    termId k ack = some id →
-    doneTags (step (step c (.api call)).1 (.peer ack)).2 = [tag] ∧
-    doneTags (step c (.apiEarlyAck call ack)).2 = [tag]
-
-/-- The first interleaving holds. -/
-theorem C12_completes_on_ack_partial (c : C) (call : Api) (k : Kind) (id tag : Nat) (ack : Packet)
+after the call returned (`.api` then `.peer`) or arrives between the write and
+the registration (`.apiEarlyAck`).  In both cases the completion fires exactly
+once in that step and the request has left its queue, so that no later
+acknowledgement can complete it again. -/
+theorem C12_completes_on_ack (c : C) (call : Api) (k : Kind) (id tag : Nat) (ack : Packet)
     (hc : c.connected = true) (hreq : callReq call = some (k, id, tag)) (hid : id ≠ 0) (htag : tag ≠ 0)
     (hq : queue k c = []) (ht : termId k ack = some id) :
-    doneTags (step (step c (.api call)).1 (.peer ack)).2 = [tag] := by
-  rw [completes_after_return c call k id tag ack hc hreq hid hq ht]
-  simp [nz, htag]
+    doneTags (step (step c (.api call)).1 (.peer ack)).2 = [tag] ∧
+    doneTags (step c (.apiEarlyAck call ack)).2 = [tag] ∧
+    queue k (step c (.apiEarlyAck call ack)).1 = [] ∧
+    queue k (step (step c (.api call)).1 (.peer ack)).1 = [] := by
+  have hz : nz [tag] = [tag] := by simp [nz, htag]
+  refine ⟨?_, ?_, completes_in_window_queue c call k id tag ack hc hreq hid htag hq ht, ?_⟩
+  · rw [completes_after_return c call k id tag ack hc hreq hid hq ht, hz]
+  · rw [completes_in_window c call k id tag ack hc hreq hid hq ht, hz]
+  · have := completes_in_window_queue c call k id tag ack hc hreq hid htag hq ht
+    rw [step_early] at this
+    exact this
 
-/-- The second does not (finding E5): the acknowledgement processed between
-`writeMessage` and `Wait` finds no entry and is dropped; the request is
-registered afterwards and stays in its queue, non-terminal, and its completion
-never fires although its acknowledgement has arrived. -/
-theorem C12_early_ack_counterexample : ¬ C12_completes_on_ack_full ∧
+/-- The witness of the repaired finding E5: a QoS 1 publish (identifier 2, callback 4) whose PUBACK
+arrives inside the window, with another publish (identifier 9, callback 3) in flight: the PUBLISH is
+written, the request is registered behind 9, the PUBACK marks it; it is held back behind 9 (FIFO)
+and completes, once, when 9 is acknowledged.  With an empty queue it completes in the same step. -/
+theorem C12_early_ack_completes :
     (let ev := Ev.apiEarlyAck (.publish { qos := 1, topic := [97], pktid := 2, payload := [1] } 4) (.puback 2)
      (step demoA ev).2 = [.wrote (.publish { qos := 1, topic := [97], pktid := 2, payload := [1] })] ∧
-     (queue .pub1 (step demoA ev).1).map (fun r => (r.id, r.tag, r.state)) = [(9, 3, 0), (2, 4, 0)]) := by
-  refine ⟨fun h => ?_, by decide⟩
-  have := (h (step init (.connect (.connack false 0))).1
-    (.publish { qos := 1, topic := [97], pktid := 2, payload := [1] } 4) .pub1 2 4 (.puback 2)
-    (by decide) (by decide) (by decide) (by decide) (by decide) (by decide)).2
-  exact absurd this (by decide)
+     (queue .pub1 (step demoA ev).1).map (fun r => (r.id, r.tag, terminal r.state)) = [(9, 3, false), (2, 4, true)] ∧
+     runOuts (step demoA ev).1 [.peer (.puback 9), .peer (.puback 2)] = [[.complete 3 false, .complete 4 false], []]) ∧
+    (let c := (step init (.connect (.connack false 0))).1
+     let ev := Ev.apiEarlyAck (.publish { qos := 1, topic := [97], pktid := 2, payload := [1] } 4) (.puback 2)
+     (step c ev).2 = [.wrote (.publish { qos := 1, topic := [97], pktid := 2, payload := [1] }), .complete 4 false] ∧
+     queue .pub1 (step c ev).1 = [] ∧
+     runOuts (step c ev).1 [.peer (.puback 2)] = [[]]) := by
+  decide
+
+/-- **An early PINGRESP shifts nothing.**  Two pings from a connected state without a ping in
+flight; the PINGRESP of the first arrives inside the first call's window, the PINGRESP of the second
+after the second call: the completions fire in call order, the first in the composite step, the
+second at the second PINGRESP, for all callbacks.  (Before the repair of E5 the early PINGRESP found
+no ping registered and was dropped; the next PINGRESP then completed the *first* call, and the
+completion of every later ping came one PINGRESP late.) -/
+theorem C12_early_pingresp_no_shift (c : C) (hc : c.connected = true) (hq : c.pings = []) (t1 t2 : Nat) :
+    runOuts c [.apiEarlyAck (.ping t1) .pingresp, .api (.ping t2), .peer .pingresp] =
+      [.wrote .pingreq :: completeOut t1 false, [.wrote .pingreq], completeOut t2 false] ∧
+    (runState c [.apiEarlyAck (.ping t1) .pingresp, .api (.ping t2), .peer .pingresp]).pings = [] := by
+  have h1 : step c (.apiEarlyAck (.ping t1) .pingresp) = ({ c with pings := [] }, .wrote .pingreq :: completeOut t1 false) := by
+    simp [step, hc, apiWrite, apiRegister, hq, peer, pingAck, pingAcked, Mqtt.Generated.tPINGRESP]
+  have h2 : step { c with pings := [] } (.api (.ping t2)) =
+      ({ c with pings := [(0, t2)] }, [.wrote .pingreq]) := by
+    simp [step, hc, apiWrite, apiRegister]
+  have h3 : step { c with pings := [(0, t2)] } (.peer .pingresp) =
+      ({ c with pings := [] }, completeOut t2 false) := by
+    simp [step, hc, peer, pingAck, pingAcked, Mqtt.Generated.tPINGRESP]
+  simp only [runOuts, runState, List.foldl_cons, List.foldl_nil, h1, h2, h3, and_self]
+
+/-- … also with pings outstanding: two pings in flight, a third whose window receives a PINGRESP -
+the PINGRESP answers the *oldest* ping (the n-th PINGRESP answers the n-th PINGREQ), the new ping
+queues behind the second -/
+example :
+    runOuts demoA [.api (.ping 1), .api (.ping 2), .apiEarlyAck (.ping 3) .pingresp, .peer .pingresp, .peer .pingresp,
+        .peer .pingresp] =
+      [[.wrote .pingreq], [.wrote .pingreq], [.wrote .pingreq, .complete 1 false], [.complete 2 false],
+       [.complete 3 false], []] := by
+  decide
 
 example :
     let c := (step init (.connect (.connack false 0))).1
@@ -465,9 +521,9 @@ theorem C12_distinct_step_iff (c : C) (hc : c.connected = true) (h : AllDistinct
   api_clear_iff c hc h call k id tag hreq
 
 /-- A request written with an identifier not in flight is registered, under
-that identifier and with its completion tag - also when its acknowledgement is
-processed before the registration - and the identifiers in flight stay
-pairwise distinct. -/
+that identifier and with its completion tag - also when its acknowledgement
+arrives before the registration - and the identifiers in flight stay pairwise
+distinct. -/
 theorem C12_clear_step (c : C) (hc : c.connected = true) (h : AllDistinct c) (ev : Ev) (call : Api)
     (hev : ev = .api call ∨ ∃ ack, ev = .apiEarlyAck call ack) (k : Kind) (id tag : Nat)
     (hreq : callReq call = some (k, id, tag)) (hclear : clearStep c ev = true) :
@@ -598,7 +654,9 @@ except that a delivered message fixes callback, topic and payload only, and
 `Ok s evs` (decidable, evaluated along the *specification's* run) admits a
 history iff every event is inside the recorded exclusions:
 
-* no `.apiEarlyAck` (E5);
+* the composite event `.apiEarlyAck call ack` is admitted iff `.api call` is and,
+  after it, `.peer ack` is (there is no early-acknowledgement exclusion any
+  more: E5 was repaired);
 * filters and delivered topic names without empty levels and not beginning
   with `$` (`good`, B3), delivered names valid, QoS <= 2;
 * QoS 1/2 publishes, subscribes, unsubscribes carry a caller-supplied non-zero
@@ -674,15 +732,36 @@ example : (runOuts init demoD).drop 8 =
 
 example : RunMatch (specOuts {} demoD) (runOuts init demoD) := (C12_refines_spec_partial demoD (by decide)).1
 
-/-- E5 is needed: with the acknowledgement processed between write and registration the
-reference client completes the request, the model never does. -/
-theorem C12_refines_spec_E5_counterexample :
-    ¬ RunMatch (specOuts {} [.connect (.connack false 0),
-        .apiEarlyAck (.publish { qos := 1, topic := [97], pktid := 2, payload := [1] } 4) (.puback 2)])
-      (runOuts init [.connect (.connack false 0),
-        .apiEarlyAck (.publish { qos := 1, topic := [97], pktid := 2, payload := [1] } 4) (.puback 2)]) := by
-  intro h
-  exact absurd (runMatchB_of h) (by decide)
+/-- Acknowledgements that arrive inside the window are admitted (there is no E5 hypothesis any
+more): a QoS 1 publish whose PUBACK arrives inside its window behind another publish in flight (the
+recorded witness of E5), an early SUBACK whose filters deliver at once, an early PINGRESP with a
+ping outstanding - the model completes every request, in order, exactly as the reference client. -/
+def demoE5 : List Ev :=
+  [.connect (.connack false 0),
+   .api (.publish { qos := 1, topic := [97], pktid := 9, payload := [] } 3),
+   .apiEarlyAck (.publish { qos := 1, topic := [97], pktid := 2, payload := [1] } 4) (.puback 2),
+   .peer (.puback 9),
+   .apiEarlyAck (.subscribe 5 [([97, 47, 35], 1)] 6 8) (.suback 5 [1]),
+   .peer (.publish { qos := 0, topic := [97, 47, 98], payload := [7] }),
+   .api (.ping 10),
+   .apiEarlyAck (.ping 11) .pingresp,
+   .apiEarlyAck (.publish { qos := 2, topic := [98], pktid := 12, payload := [] } 13) (.pubcomp 12),
+   .peer .pingresp]
+
+theorem C12_refines_spec_early_acks :
+    Ok {} demoE5 = true ∧ RunMatch (specOuts {} demoE5) (runOuts init demoE5) ∧
+    runOuts init demoE5 =
+      [[.connected],
+       [.wrote (.publish { qos := 1, topic := [97], pktid := 9, payload := [] })],
+       [.wrote (.publish { qos := 1, topic := [97], pktid := 2, payload := [1] })],
+       [.complete 3 false, .complete 4 false],
+       [.wrote (.subscribe 5 [([97, 47, 35], 1)]), .complete 6 false],
+       [.deliver 8 { qos := 0, topic := [97, 47, 98], payload := [7] }],
+       [.wrote .pingreq],
+       [.wrote .pingreq, .complete 10 false],
+       [.wrote (.publish { qos := 2, topic := [98], pktid := 12, payload := [] }), .complete 13 false],
+       [.complete 11 false]] :=
+  ⟨by decide, (C12_refines_spec_partial demoE5 (by decide)).1, by decide⟩
 
 /-- Several outstanding pings are admitted (there is no ping hypothesis any more): three pings before
 the first PINGRESP, PINGRESPs interleaved with another acknowledgement, a PINGRESP with nothing
@@ -760,6 +839,122 @@ theorem C12_refines_spec_auto_id_counterexample :
   exact absurd (runMatchB_of h) (by decide)
 
 theorem C12_refines_spec_full_counterexample : ¬ C12_refines_spec_full :=
-  fun h => C12_refines_spec_E5_counterexample (h _)
+  fun h => C12_refines_spec_B3_counterexample (h _)
+
+/-! ## (f) why the acknowledgement waits: the two critical sections of `service.ackmu`
+
+`Model/AckLock.lean` runs the sending calls and the processor as small-step programs over one
+mutex: any number of senders (one acknowledged request each: `Lock · writeMessage ·
+[verifAckWindow] · Wait · Unlock`), the processor (`next acknowledgement · Lock · Ack · Unlock ·
+processAcked`), and a peer that sends acknowledgements bearing any identifier at any time.
+The theorems quantify over every schedule (`sched : List Choice`, any length; a choice that is not
+enabled is skipped).  What is proved is the ordering `Model/Client.step` gives the composite event
+`.apiEarlyAck`; the programs are tied to the source by `C12_ack_lock_structure_is_source`. -/
+
+section AckLock
+open Mqtt.Model.AckLock Mqtt.Proofs.AckLock
+
+/-- **The interleaving of E5 is unreachable.**  In every reachable state of the two programs of
+the source, for any number of senders, any schedule and whatever the peer sends:
+
+* no `Ackqueue.Ack` so far was performed while the request whose identifier it bears was written
+  but not yet registered (`inWindow = false`): every mark happens after the registration or before
+  the write of that request;
+* an acknowledgement the peer sent after the request was written (`caused`) found the request
+  registered (`found`): it is recorded, and `processAcked` completes the request;
+* a completion ran only for a registered request;
+* while a request is written and not yet registered, its sender holds the mutex. -/
+theorem C12_ack_waits_for_registration (sched : List Choice) :
+    let s := run senderProgram procProgram Mqtt.Model.AckLock.init sched
+    (∀ m ∈ s.marks, m.inWindow = false ∧ (m.caused = true → m.found = true)) ∧
+    (∀ i ∈ s.completed, s.registered i = true) ∧
+    (∀ i, s.written i = true → s.registered i = false → s.holder = some (.sender i)) := by
+  intro s
+  have h := inv_reachable sched
+  exact ⟨h.marks, h.compl, fun i hw hr => h.window_holds i hw hr⟩
+
+/-- Mutual exclusion and the shape of the critical sections: in every reachable state a sender
+holds the mutex exactly between its `Lock` and its `Unlock` - the request is written from the second
+operation on and registered from the fourth on -, the processor holds it exactly around `Ack`, and
+not while the completion callbacks run (`ppc = 4`: a callback may itself publish, subscribe or
+ping, i.e. start a sender that takes the mutex). -/
+theorem C12_ack_critical_sections (sched : List Choice) :
+    let s := run senderProgram procProgram Mqtt.Model.AckLock.init sched
+    (∀ i, s.holder = some (.sender i) ↔ (1 ≤ s.spc i ∧ s.spc i ≤ 4)) ∧
+    (∀ i, s.written i = true ↔ 2 ≤ s.spc i) ∧ (∀ i, s.registered i = true ↔ 4 ≤ s.spc i) ∧
+    (s.holder = some .proc ↔ (s.ppc = 2 ∨ s.ppc = 3)) ∧
+    (s.ppc = 4 → s.holder ≠ some .proc) := by
+  intro s
+  have h := inv_reachable sched
+  refine ⟨h.hold, h.wr, h.reg, h.phold, fun h4 e => ?_⟩
+  have h2 : s.ppc = 2 ∨ s.ppc = 3 := h.phold.mp e
+  omega
+
+/-- non-vacuity, the case of E5: the acknowledgement of request 0 arrives inside the window; the
+processor's `Lock` is not enabled until the sender has registered and unlocked; then the
+acknowledgement finds the request and the completion runs.  Two more senders and a stray
+acknowledgement (identifier 2, sent before request 2 is written: not found, nothing completes)
+in between. -/
+example :
+    let s := run senderProgram procProgram Mqtt.Model.AckLock.init
+      [.sender 0, .sender 0, .peer 0, .proc, .proc, .sender 1, .sender 0, .proc, .sender 0, .sender 0,
+       .proc, .sender 1, .proc, .proc, .proc,
+       .peer 2, .sender 1, .proc, .proc, .sender 1, .sender 1, .sender 1, .sender 1, .proc, .proc, .proc, .proc,
+       .sender 2, .sender 2, .sender 2, .sender 2, .sender 2]
+    s.marks = [⟨0, true, true, false⟩, ⟨2, false, false, false⟩] ∧ s.completed = [0] ∧
+    s.registered 0 = true ∧ s.registered 1 = true ∧ s.registered 2 = true ∧ s.holder = none := by
+  decide
+
+/-- **The mutex is necessary.**  The programs of the code before the repair (no lock operations):
+the request is written, its acknowledgement arrives and is marked before the registration - it
+falls into the window, finds nothing, and the request, registered afterwards, never completes
+(finding E5). -/
+theorem C12_ack_window_unlocked_counterexample :
+    let s := run senderProgramOld procProgramOld Mqtt.Model.AckLock.init
+      [.sender 0, .peer 0, .proc, .proc, .sender 0, .sender 0, .proc]
+    s.marks = [⟨0, true, false, true⟩] ∧ s.registered 0 = true ∧ s.completed = [] := by
+  decide
+
+/-- **The registration has to be inside the critical section.**  A sender that keeps the mutex
+around the write but registers after `Unlock`: the acknowledgement gets the mutex between the
+`Unlock` and the `Wait`, and is lost in the same way. -/
+theorem C12_ack_wait_outside_counterexample :
+    let s := run senderProgramWaitOutside procProgram Mqtt.Model.AckLock.init
+      [.sender 0, .sender 0, .peer 0, .proc, .proc, .sender 0, .sender 0, .proc, .proc, .proc, .proc, .sender 0]
+    s.marks = [⟨0, true, false, true⟩] ∧ s.registered 0 = true ∧ s.completed = [] := by
+  decide
+
+/-- **The two programs are the source's.**  The lock structure regenerated from
+service/service.go and service/process.go on every run (which functions take `ackmu` around which
+calls, in source order) is exactly the shape of `senderProgram` and `procProgram`: `subscribe`,
+`unsubscribe`, `ping` and `publish` for QoS 1/2 are `Lock; defer Unlock; writeMessage;
+verifAckWindow; Wait`; `ack` is `Lock; defer Unlock; Ackqueue.Ack` and the only caller of
+`Ackqueue.Ack`; `processIncoming` calls `processAcked` only after `ack` has returned.  A change that
+removes the mutex, moves a `Wait` or `processAcked` across its boundary, adds an explicit `Unlock`,
+or registers / acknowledges somewhere else makes this theorem false. -/
+theorem C12_ack_lock_structure_is_source :
+    ((∀ name ∈ ["subscribe", "unsubscribe", "ping"],
+        Mqtt.Generated.ackSenders.lookup name = deferredShape (senderProgram.map SOp.code)) ∧
+      publishInlined "QosAtLeastOnce" = deferredShape (senderProgram.map SOp.code) ∧
+      publishInlined "QosExactlyOnce" = deferredShape (senderProgram.map SOp.code) ∧
+      publishQos0 = some [3, 4, 8] ∧
+      Mqtt.Generated.ackSendPublishCallers = ["publish", "publish"] ∧
+      Mqtt.Generated.ackLockSites = ["ack", "ping", "publish", "subscribe", "unsubscribe"] ∧
+      Mqtt.Generated.ackUnlockSites = [] ∧
+      Mqtt.Generated.ackWaitSites =
+        ["ping", "processPublish", "sendPublish", "sendPublish", "subscribe", "unsubscribe"]) ∧
+    (some Mqtt.Generated.ackHelper = deferredShape ((procProgram.drop 1).dropLast.map POp.code) ∧
+      Mqtt.Generated.ackAckSites = ["ack"] ∧
+      Mqtt.Generated.ackProcessIncomingOutside = 0 ∧ Mqtt.Generated.ackIrregular = 0 ∧
+      (∀ c ∈ Mqtt.Generated.ackProcessIncoming, c.2.head? = some 10 ∧ c.2.tail.all (fun x => x == 11 || x == 3)) ∧
+      (∀ name ∈ ["PubackMessage", "PubcompMessage", "SubackMessage", "UnsubackMessage", "PingrespMessage"],
+        Mqtt.Generated.ackProcessIncoming.lookup name = some [10, 11])) := by
+  have hs := facts_senders
+  have hp := facts_processor
+  obtain ⟨s1, s2, s3, s4, _, _, s7, s8, _, s10, s11, _⟩ := hs
+  obtain ⟨p1, p2, _, _, p5, _, p7, _, p9, p10⟩ := hp
+  exact ⟨⟨s1, s2, s3, s4, s7, s8, s10, s11⟩, p1, p2, p5, p7, p9, p10⟩
+
+end AckLock
 
 end Mqtt.Properties.C12
